@@ -7,7 +7,7 @@ import props.wiring as wr
 
 MANIFEST = {
     "level": "proof",
-    "text": "Ownership frame with two symbolic emulator instances (two distinct CPU objects, each with its own Interrupts, OAM and Mapper, both initialised by the real Initialize): stepping either instance through a representative set of opcodes (register ALU, PUSH, immediate load, CB rotate, DI) is proved (a) to have exactly the solo behaviour required by the ISA specification, (b) to send every bus access to its own Mapper and (c) to leave every heap location owned by the other instance unchanged (frame obligation over all objects of the other instance). Together with a scan of the exported SSA proving that no package-level variable of any package in scope is written outside package initialisation (so there is no shared mutable state to interfere through), every component method can only touch the objects reachable from its own receiver. Power-on: the real gameboy.New is executed twice in one symbolic heap, for every pair of Configs: the two machines share no object, neither references a package-level object, and inside each machine every component reference (cpu->mapper/interrupts/oam, ppu->interrupts/oam, mapper->all) points to that machine's own single instance.",
+    "text": "Ownership frame with two symbolic emulator instances (two distinct CPU objects, each with its own Interrupts, OAM and Mapper, both initialised by the real Initialize): stepping either instance through a representative set of opcodes (register ALU, PUSH, immediate load, CB rotate, DI) is proved (a) to have exactly the solo behaviour required by the ISA specification, (b) to send every bus access to its own Mapper and (c) to leave every heap location owned by the other instance unchanged (frame obligation over all objects of the other instance). Together with a scan of the exported SSA proving that no package-level variable of any package in scope is written outside package initialisation (so there is no shared mutable state to interfere through), every component method can only touch the objects reachable from its own receiver. Power-on: the real gameboy.New is executed twice in one symbolic heap, for every pair of Configs: the two machines share no object, neither references a package-level object, and inside each machine every component reference (cpu->mapper/interrupts/oam, ppu->interrupts/oam, mapper->all) points to that machine's own single instance. newMBC is executed twice in one heap for every pair of headers: the two controllers share no object and reference no package-level object.",
     "note": "Concurrency is outside this technique (no thread model): with no shared mutable package state and disjoint heap footprints, independence under interleaving and under the race detector follows from the frame rule; that step is an assumption, not an obligation. The display/speakers packages (cgo) are excluded.",
     "technique": "two-object frame lemma over the real go/ssa + SSA scan for writes to package-level variables; z3 + symbolic execution of the real gameboy.New (object-graph disjointness)",
     "design_ref": "DESIGN.md section 4 C25",
@@ -24,7 +24,8 @@ def globals_scan(ctx):
 def tasks(ctx):
     ts = [LemmaTask("lemma:two-instances", cc.two_instance_lemma, ["(*cpu.CPU).Initialize", "(*cpu.CPU).ExecuteMachineCycle"]),
           scan_lemma("scan:no-package-variable-written-after-init", globals_scan, ["all packages (SSA scan)"]),
-          LemmaTask("lemma:power-on", lambda c, e, ce: wr.power_on(c, e, ce, invariants=False, two=True), ["gameboy.New", "memory.New", "cpu.New", "ppu.New", "audio.New", "(*cpu.CPU).Initialize"])]
+          LemmaTask("lemma:power-on", lambda c, e, ce: wr.power_on(c, e, ce, invariants=False, two=True), ["gameboy.New", "memory.New", "cpu.New", "ppu.New", "audio.New", "(*cpu.CPU).Initialize"]),
+          LemmaTask("lemma:controller", wr.controller_lemma, ["memory.newMBC", "memory.newMBC1", "memory.newMBC2", "memory.newMBC3", "memory.newMBC5"])]
     return filter_tasks(ts)
 
 
